@@ -36,7 +36,7 @@ func init() {
 		Run:          Run,
 		MaxSteps:     200000,
 		YieldFiles:   []string{"ss2022/saltpool.go", "ss2022/tcp.go"},
-		QuickRuns:    30000,
+		QuickRuns:    24000,
 		ThoroughSecs: 600,
 		Rule: "one run = one server configuration (cipher, single/multi-user, segmented-header allowance) and one generated history of up to 40 operations " +
 			"(advance clock, advance to a boundary of an earlier acceptance, fresh request with client skew, replay of an earlier request, junk / wrong key / bad type / stale, " +
